@@ -130,6 +130,13 @@ class Session:
             kw['encoder_type'] = SelChoiceEncoderType.FAST
         elif encoder == 'complete':
             kw['encoder_type'] = SelChoiceEncoderType.COMPLETE
+        if self.trace.get('base_values'):
+            # the design space graph handed to the processor already stores values itself (a baseline metric value, an
+            # initial design-variable value): unusual but legal - instances must still be independent objects
+            for k, n in enumerate(sorted(built.dsg.metric_nodes, key=gen_dsg.label)):
+                built.dsg.set_metric_value(n, 100.0 + k)
+            for n in sorted(built.dsg.des_var_nodes, key=gen_dsg.label):
+                built.dsg.set_des_var_value(n, n.bounds[0] if n.bounds is not None else 0)
         p = GraphProcessor(built.dsg, **kw)
         return p, built
 
@@ -606,6 +613,10 @@ def generate(prop, seed, tier, weights, n_ops=(4, 14), n_incompat_max=2, with_dv
 def shrink_candidates(trace):
     t = trace
     ops = t['ops']
+    if t.get('base_values'):
+        c = copy.deepcopy(t)
+        del c['base_values']
+        yield c
     n = len(ops)
     # drop chunks of operations, then single ones
     size = n // 2
